@@ -81,6 +81,14 @@ class RobotsTxtChecker(object):
                 while not session.done():
                     wpull.util.truncate_file(file.name)
 
+                    if session.next_request().url_info.scheme \
+                            not in ('http', 'https'):
+                        # Redirected to something this client cannot fetch
+                        # (mailto:, ftp:): there is no robots.txt to be had.
+                        self._accept_as_blank(url_info)
+
+                        return
+
                     try:
                         response = yield from session.start()
                         yield from session.download(file=file)
